@@ -59,15 +59,20 @@ func setCtx(bv *builtVariant, md protoreflect.MessageDescriptor, b []byte) bool 
 // hasExt: the encoding holds, at any depth, a known extension field satisfying pred
 func hasExt(md protoreflect.MessageDescriptor, b []byte, pred func(protoreflect.FieldDescriptor) bool) bool {
 	for len(b) > 0 {
-		num, typ, n := protowire.ConsumeTag(b)
-		if n < 0 {
+		// the key, read as the decoder under test reads it: field number 0 is let through (and skipped as unknown)
+		kv, n := protowire.ConsumeVarint(b)
+		if n < 0 || kv>>3 > 1<<29-1 {
 			return false
 		}
-		fd := fieldByNumber(md, num)
+		num, typ := protowire.Number(kv>>3), protowire.Type(kv&7)
+		var fd protoreflect.FieldDescriptor
+		if num > 0 {
+			fd = fieldByNumber(md, num)
+		}
 		if fd != nil && fd.IsExtension() && pred(fd) {
 			return true // (whatever follows the key, well-formed or not)
 		}
-		k := protowire.ConsumeFieldValue(num, typ, b[n:])
+		k := protowire.ConsumeFieldValue(max(num, 1), typ, b[n:])
 		if k < 0 && typ == protowire.VarintType {
 			// a varint protowire rejects as wider than 64 bits: the code under test (and the model) read on behind it
 			for k = 0; n+k < len(b) && b[n+k]&0x80 != 0; k++ {
